@@ -334,6 +334,10 @@ theorem exec_prov (T : List Nat) (s : Sys) (t : Nat) (op : Op) (hsub : ∀ x ∈
     · split at e <;> cases e
     · cases e
 
+  | unwind =>
+    simp only [exec]
+    exact noRep ((Prov.foldl_closeGuard (s.th t).guards h t).setGuards t []) (by intro rs e; cases e)
+
 /-- the trace ids supplied to the sampled `root` operations of a program -/
 def sampledRootTraces (p : Program) : List Nat := p.flatMap fun x => opTraces x.2
 
